@@ -4,7 +4,7 @@ import os, sys
 sys.path.insert(0, os.path.join(os.path.dirname(os.path.abspath(__file__)), '..', 'bin'))
 import vlib
 
-SECTIONS = ['rle_exh', 'rle_runs', 'rle_gen', 'bitpack', 'plain', 'delta', 'dstr', 'bss', 'dict']
+SECTIONS = ['rle_exh', 'rle_runs', 'rle_gen', 'bitpack', 'bitstream', 'plain', 'delta', 'dstr', 'bss', 'dict']
 
 
 def main(c):
